@@ -159,6 +159,8 @@ def gen_case(rng, tier):
         "X0": L(X0), "X1": L(X1), "y0": y0, "ys": ys, "stat_rows": stat_rows,
         "xlayout": rng.choice(["C", "C", "F", "strided", "transposed"]),
         "xbig": xbig,
+        # a prior component far from all data (no evidence reaches it during adaptation)
+        "prior_far": rng.random() < 0.3,
         # memory-mapped / shared data is typically handed over read-only: a library that only
         # reads its inputs never notices
         "readonly": rng.random() < 0.1,
@@ -215,6 +217,13 @@ class Pool:
         self.prior.weights = A(case["prior"]["weights"])
         self.prior.means = A(case["prior"]["means"])
         self.prior.variances = A(case["prior"]["variances"])
+        if case.get("prior_far"):
+            pm = np.array(self.prior.means)
+            pm[-1] += 1e4 * (np.abs(self.X0).max() + 1.0)
+            self.prior.means = pm
+        # option arrays the caller owns and re-uses for several machines
+        self.alpha_arr = np.full(c, 0.5)
+        self.init_weights = np.array(self.ubm.weights)
         rs_ = np.random.RandomState(len(case["X0"]) * 7 + c)
         self.offsets = rs_.randn(c, self.X0.shape[1]) * 0.1      # caller-owned channel offsets
         self.model_means = np.array([np.array(self.prior.means), np.array(self.ubm.means) * 1.1])
@@ -237,6 +246,10 @@ class Pool:
         """Every caller-owned ndarray (for shares_memory checks)."""
         out = [("X0", self.X0), ("X1", self.X1), ("Xbig", self.Xbig), ("init_c", self.init_c),
                ("y0", self.y0_arr), ("ys", self.ys_arr), ("offsets", self.offsets),
+               ("alpha_arr", self.alpha_arr),
+               # (init_weights is NOT listed: a `weights=` constructor argument is kept by
+               #  reference like any array assigned through a setter - the caller's own aliasing,
+               #  not one of the aliasing clauses of the property; it must only stay unchanged)
                ("model_means", self.model_means)]
         for nm, g in (("ubm", self.ubm), ("prior", self.prior)):
             out += [(f"{nm}.means", np.asarray(g.means)), (f"{nm}.variances", np.asarray(g.variances)),
@@ -251,6 +264,7 @@ class Pool:
               "y0_arr": digest(self.y0_arr), "ys_arr": digest(self.ys_arr),
               "ys_list": digest(self.ys_list), "init_c": digest(self.init_c),
               "offsets": digest(self.offsets), "model_means": digest(self.model_means),
+              "alpha_arr": digest(self.alpha_arr), "init_weights": digest(self.init_weights),
               "ubm": obj_digest(self.ubm), "prior": obj_digest(self.prior)}
         for i, s in enumerate(self.stats):
             dg[f"stats[{i}]"] = obj_digest(s)
@@ -363,10 +377,15 @@ def _call(pool, o, rec, label):
         kw = dict(max_fitting_steps=o["it"], update_means=o["um"], update_variances=o["uv"],
                   update_weights=o["uw"], convergence_threshold=None)
         if name == "gmm_map_fit":
+            if o["flag"]:  # fixed adaptation ratios given as the caller's array
+                kw.update(map_relevance_factor=None, map_alpha=pool.alpha_arr)
             g = GMMMachine(case["c"], trainer="map", ubm=pool.prior, **kw)
         else:
+            if o["flag"]:
+                kw["weights"] = pool.init_weights  # constructor argument owned by the caller
             g = GMMMachine(case["c"], **kw)
-            g.weights = np.array(pool.ubm.weights)
+            if not o["flag"]:
+                g.weights = np.array(pool.ubm.weights)
             g.means = np.array(pool.ubm.means)
             g.variances = np.array(pool.ubm.variances)
         res = under_sim(lambda: g.fit(dX(X))) if use_da else g.fit(X)
